@@ -154,10 +154,10 @@ func isNilScalarV(rv reflect.Value) bool {
 }
 
 type enc struct {
-	sb     strings.Builder
-	buf    []byte
-	negz   bool // keep the sign of zero
-	nullN  bool // inside a sparse container: a stored null scalar (value and all derivatives zero) is the same as an absent entry
+	sb    strings.Builder
+	buf   []byte
+	negz  bool // keep the sign of zero
+	nullN bool // inside a sparse container: a stored null scalar (value and all derivatives zero) is the same as an absent entry
 }
 
 func isNull(s ad.ConstScalar) (null bool) {
